@@ -375,6 +375,10 @@ def _digits_value(pts, base):
 def _int(val: Any = 0, base=_MISSING):
     pts = None
     with NoTracing():
+        if isinstance(val, SymbolicInt):
+            if base is not _MISSING:
+                raise TypeError("int() can't convert non-string with explicit base")
+            return val
         if isinstance(val, BytesLike):
             pts = val._ch_codepoints
         elif isinstance(val, LazyIntSymbolicStr):
@@ -386,7 +390,10 @@ def _int(val: Any = 0, base=_MISSING):
             ok = _all(_is_digit(c) for c in pts) if b == 10 else _all(_is_hex(c) for c in pts)
             if bool(ok):
                 return _digits_value(pts, b)
-    return _orig_int(val) if base is _MISSING else _orig_int(val, base)
+    # anything else: realise and call the real int() (never re-enter a patched int)
+    with NoTracing():
+        rv = deep_realize(val)
+        return int(rv) if base is _MISSING else int(rv, deep_realize(base))
 
 
 # --------------------------------------------------------------------------------------
@@ -443,11 +450,76 @@ def _unhexlify(data):
         sym = isinstance(data, BytesLike)
     if not sym:
         with NoTracing():
-            data = deep_realize(data)
-        return binascii.unhexlify(data)
+            return binascii.unhexlify(deep_realize(data))
     out = unhex_pts(data._ch_codepoints)
     with NoTracing():
         return SymbolicBytes(out)
+
+
+# --------------------------------------------------------------------------------------
+# binascii.a2b_base64 (non-strict mode) for inputs of the shape  alphabet* '='{0,2}
+# -- the only shape the decoders' regexes let through.  Branch-free sextet values.
+
+
+def _is_b64(c):
+    return _is_alnum(c) | (c == 43) | (c == 47)
+
+
+def _b64_val(c):
+    # value of a byte already known to be in the base64 alphabet
+    return (c - 65) * _is_upper(c) + (c - 71) * _is_lower(c) + (c + 4) * _is_digit(c) + 62 * (c == 43) + 63 * (c == 47)
+
+
+def b64_fast_pts(pts: list):
+    """-> list of byte values, or raises binascii.Error, or None when the input is not of the
+    fast-path shape (then the caller realises and uses CPython)."""
+    pts = list(pts)
+    n = len(pts)
+    # number of trailing '=' (0..2), decided with at most two forks
+    p = 0
+    if n >= 1 and bool(pts[n - 1] == 61):
+        p = 1
+        if n >= 2 and bool(pts[n - 2] == 61):
+            p = 2
+    data = pts[: n - p]
+    if not bool(_all(_is_b64(c) for c in data)):
+        return None
+    nd = len(data)
+    r = nd % 4
+    if r == 1:
+        raise binascii.Error(
+            "Invalid base64-encoded string: number of data characters (%d) cannot be 1 more than a multiple of 4" % nd
+        )
+    if (r == 2 and p < 2) or (r == 3 and p < 1):
+        raise binascii.Error("Incorrect padding")
+    vals = [_b64_val(c) for c in data]
+    out = []
+    for i in range(0, nd - r, 4):
+        a, b, c, d = vals[i : i + 4]
+        out += [a * 4 + b // 16, (b % 16) * 16 + c // 4, (c % 4) * 64 + d]
+    if r == 2:
+        a, b = vals[nd - 2 :]
+        out += [a * 4 + b // 16]
+    elif r == 3:
+        a, b, c = vals[nd - 3 :]
+        out += [a * 4 + b // 16, (b % 16) * 16 + c // 4]
+    return out
+
+
+_orig_a2b_base64 = None
+
+
+def _a2b_base64(data, strict_mode: bool = False):
+    with NoTracing():
+        sym = isinstance(data, BytesLike)
+        strict = realize(strict_mode)
+    if sym and not strict:
+        out = b64_fast_pts(data._ch_codepoints)
+        if out is not None:
+            with NoTracing():
+                return SymbolicBytes(out)
+    with NoTracing():
+        return binascii.a2b_base64(deep_realize(data), strict_mode=strict)
 
 
 # --------------------------------------------------------------------------------------
@@ -475,11 +547,26 @@ def _unquote_to_bytes(string):
         sym = isinstance(string, BytesLike)
     if not sym:
         with NoTracing():
-            string = deep_realize(string)
-        return urllib.parse.unquote_to_bytes(string)
+            return urllib.parse.unquote_to_bytes(deep_realize(string))
     out = unquote_pts(string._ch_codepoints)
     with NoTracing():
         return SymbolicBytes(out)
+
+
+# --------------------------------------------------------------------------------------
+# socket.inet_aton / inet_pton: C functions; arguments are realised (the solver then
+# enumerates the concrete strings one by one -- keep the free bytes of IP skeletons few).
+
+
+def _realizing(fn):
+    def wrapper(*a, **kw):
+        with NoTracing():
+            a = [deep_realize(x) for x in a]
+            kw = {k: deep_realize(v) for k, v in kw.items()}
+            return fn(*a, **kw)
+
+    wrapper.__name__ = getattr(fn, "__name__", "wrapped")
+    return wrapper
 
 
 # --------------------------------------------------------------------------------------
@@ -545,5 +632,8 @@ def install() -> None:
     SymbolicInt.__xor__ = _int_xor
     SymbolicInt.__rxor__ = _int_rxor
     regs[binascii.unhexlify] = _unhexlify
+    regs[binascii.a2b_base64] = _a2b_base64
+    regs[socket.inet_aton] = _realizing(socket.inet_aton)
+    regs[socket.inet_pton] = _realizing(socket.inet_pton)
     regs[urllib.parse.unquote_to_bytes] = _unquote_to_bytes
     register_opcode_patch(BytesContainmentInterceptor())
